@@ -28,4 +28,6 @@ def check(tree, rep, tier='quick', seed=0):
     R.k7_missing_key_raises(core, rep)
     l1_access(tree, rep)
     rep.floor('core functions modelled', len(core.funcs), 120)
+    R.k24_tracker_shape(core, rep, parts=('a', 'b'))
+    R.k20_ctrl_c(core, rep)
     rep.floor('core rule obligations', sum(v[0] for k, v in rep.rules.items() if k.startswith('K')), 60)
